@@ -2,7 +2,9 @@
 (***************************************************************************)
 (* How values print (C14): the %v rendering of Go's fmt for booleans,      *)
 (* integers of every width, float64, strings, arbitrarily nested slices    *)
-(* and single-entry maps; struct references as &{Field:value ...} in       *)
+(* and maps (entries in ascending key order, as fmt prints them; keys are  *)
+(* booleans, integers or strings when there are several); struct           *)
+(* references as &{Field:value ...} in                                     *)
 (* declaration order; operands of Println separated by one space.          *)
 (* Text is a sequence of bytes.                                            *)
 (*                                                                         *)
@@ -51,13 +53,29 @@ FloatText(f) ==
            ELSE IF f.dp >= n THEN sign \o ds \o Zeros0(f.dp - n)
            ELSE sign \o SubSeq(ds, 1, f.dp) \o <<46>> \o SubSeq(ds, f.dp + 1, n)
 
+\* order of map keys in the printed text: false < true, integers by value, strings bytewise
+RECURSIVE SeqLess(_, _)
+SeqLess(a, b) == IF b = <<>> THEN FALSE ELSE IF a = <<>> THEN TRUE
+                 ELSE IF Head(a) # Head(b) THEN Head(a) < Head(b) ELSE SeqLess(Tail(a), Tail(b))
+KeyLess(a, b) == CASE a.t = "int"  -> IF a.ty = "uint32" THEN U32Lt(a.v, b.v) ELSE a.v < b.v
+                   [] a.t = "str"  -> SeqLess(a.s, b.s)
+                   [] a.t = "bool" -> ~a.b /\ b.b
+                   [] OTHER -> FALSE
+RECURSIVE KeyOrder(_, _)
+KeyOrder(ks, S) == IF S = {} THEN <<>>
+                   ELSE LET m == CHOOSE i \in S : \A j \in S : j = i \/ KeyLess(ks[i], ks[j])
+                        IN <<m>> \o KeyOrder(ks, S \ {m})
+
 RECURSIVE Fmt(_)
 RECURSIVE JoinFmt(_, _)
+RECURSIVE EntriesFmt(_, _, _, _)
 JoinFmt(vs, i) == IF i > Len(vs) THEN <<>>
                   ELSE (IF i > 1 THEN <<32>> ELSE <<>>) \o Fmt(vs[i]) \o JoinFmt(vs, i + 1)
 RECURSIVE FieldsFmt(_, _, _)
 FieldsFmt(names, vals, i) == IF i > Len(names) THEN <<>>
                              ELSE (IF i > 1 THEN <<32>> ELSE <<>>) \o names[i] \o <<58>> \o Fmt(vals[i]) \o FieldsFmt(names, vals, i + 1)
+EntriesFmt(ks, vs, order, i) == IF i > Len(order) THEN <<>>
+                                ELSE (IF i > 1 THEN <<32>> ELSE <<>>) \o Fmt(ks[order[i]]) \o <<58>> \o Fmt(vs[order[i]]) \o EntriesFmt(ks, vs, order, i + 1)
 Fmt(v) ==
     CASE v.t = "bool" -> IF v.b THEN <<116, 114, 117, 101>> ELSE <<102, 97, 108, 115, 101>>
       [] v.t = "int" -> IF v.ty = "uint32" THEN UText(v.v) ELSE IntText(v.v)
@@ -65,6 +83,7 @@ Fmt(v) ==
       [] v.t = "str" -> v.s
       [] v.t = "slice" -> <<91>> \o JoinFmt(v.elems, 1) \o <<93>>
       [] v.t = "map" -> <<109, 97, 112, 91>> \o Fmt(v.k) \o <<58>> \o Fmt(v.v) \o <<93>>      \* single entry (or none)
+      [] v.t = "mmap" -> <<109, 97, 112, 91>> \o EntriesFmt(v.ks, v.vs, KeyOrder(v.ks, DOMAIN v.ks), 1) \o <<93>>   \* several entries: ascending keys
       [] v.t = "emptymap" -> <<109, 97, 112, 91, 93>>
       [] v.t = "struct" -> <<38, 123>> \o FieldsFmt(v.names, v.vals, 1) \o <<125>>
       [] v.t = "println" -> JoinFmt(v.elems, 1) \o <<10>>     \* Println: operands separated by one space, then a newline
